@@ -9,30 +9,37 @@ from lib import c08_sessions as S, framework as fw
 META = {
     'props': 'Props/C08.v',
     'claimed': True,
-    'level_text': ('Proof (partial): for EVERY history of operations (requests through any client with caching on or off, file '
-                   'writes/deletes, chdir, argv assignments, new clients, command-line runs; any length, any starting state, any '
-                   'simulation oracle, any hash) the model of the CURRENT client restores cwd and sys.argv after every request, '
-                   'successful, cached or failed (C08_restore, C08_restore_history, C08_cli_restore, C08_get_frame); the client of '
-                   'the pinned tree is kept as a named alternative with its refutation (C08_restore_pinned_refuted/_partial). The '
-                   'clause "a client never returns a result computed from content different from the request" is REFUTED by the '
-                   'path-keyed cache (C08_cache_refines_run_refuted; known finding) and proved for every history under the two '
-                   'hypotheses it needs - hash injective on the requested paths, no file changed while cached - and '
-                   'unconditionally with caching off (C08_cache_refines_run_partial, C08_nocache_refines_run, '
-                   'C08_result_function_of_content). lru_cache tables: memoising a key-respecting function is unobservable for '
-                   'every call sequence and maxsize, identity-keyed tables never hit on distinct objects, and every memoised '
-                   'callable of the current source (table regenerated each run) is of one of the two kinds. Tie: random histories '
-                   'executed on the real client/CLI in fresh processes (different cwd, PYTHONHASHSEED) and on the model; '
+    'level_text': ('Proof (partial): for EVERY history of operations (requests through any GEOPHIRES client with caching on or off and '
+                   'through the HIP-RA-X / HIP-RA clients, with absolute or relative request paths, file writes/deletes, chdir, argv '
+                   'assignments, new clients, command-line runs, Monte-Carlo work packages; any length, any starting state, any '
+                   'simulation oracle, any hash, any path resolution) the model of the CURRENT clients restores cwd and sys.argv after '
+                   'every request, successful, cached or failed (C08_restore, C08_restore_history, C08_hip_frame, C08_cli_restore, '
+                   'C08_get_frame, C08_mc_package); the client of the pinned tree is kept as a named alternative with its refutation '
+                   '(C08_restore_pinned_refuted/_partial). The clause "a client never returns a result computed from content different '
+                   'from the request" is REFUTED twice - by the path-keyed cache and by relative request paths, which are opened in the '
+                   'program\'s directory (C08_cache_refines_run_refuted, C08_relative_request_refuted; two known findings) - and proved '
+                   'for every history under the hypotheses it needs (C08_cache_refines_run_partial, C08_nocache_refines_run, '
+                   'C08_absolute_paths_resolve_same, C08_result_function_of_content); both repairs are proved sound '
+                   '(C08_sound_key_refines_run, C08_content_key_refines_run, C08_caller_dir_resolves_same). State that outlives a run: '
+                   'lru_cache tables (memoising a key-respecting function is unobservable, identity-keyed tables never hit on distinct '
+                   'objects, every memoised callable of the source is of one of the two kinds) and every other module/class-level '
+                   'mutable object and Parameter default of the source (tables regenerated each run: no default is shared between '
+                   'runs, every written process-level container is a keyed memo). Tie: random histories executed on the real '
+                   'clients/CLI/Monte-Carlo work_package in fresh processes (different cwd, PYTHONHASHSEED) and on the model; '
                    'cwd/argv/outcome compared step by step inside Coq, property verdicts computed by Coq checkers proved sound.'),
     'level_note': ('Only tied, not proved: that the real simulation is a function of the file content (pint registry, CoolProp, '
                    'lru_cache contents, numpy state are exercised by the histories: parsed result, masked report text and '
-                   'full-precision JSON output must equal those of a fresh single-run process). Paths are absolute and '
-                   'normalised; the OS, Python dict/hash semantics and functools.lru_cache are modelled (the latter compared '
-                   'with the model on random key sequences).'),
+                   'full-precision JSON output must equal those of a fresh single-run process). The OS path resolution, Python '
+                   'dict/hash semantics and functools.lru_cache are modelled (the latter compared with the model on random key '
+                   'sequences); the source scans (tools/gen/c08_memo.py, c08_state.py) are unverified Python, tied to the live '
+                   'objects by identity checks on two Model instances.'),
     'technique': 'Coq proof about an executable Gallina model + kernel-evaluated correspondence with the implementation',
     'rule': ('sessions = random histories (<= 40 operations quick, <= 60 thorough) over a pool of input files from every '
              'end-use/plant/economic-model family plus requests failing in the reader, in Calculate and by sys.exit, files '
              'missing/deleted/rewritten between calls, 1-3 clients with caching on/off, dict-built requests, requests built from '
-             'a base file plus overriding params (same params over different bases and conversely), chdir, argv '
+             'a base file plus overriding params (same params over different bases and conversely), RELATIVE request paths '
+             '(a name that also exists in the source directory and one that does not) from changing directories, HIP-RA-X / '
+             'HIP-RA client requests, Monte-Carlo work packages (MC_GeoPHIRES3.work_package in-process, 2-4 iterations), chdir, argv '
              'assignments, in-process CLI runs; one fresh process per session, PYTHONHASHSEED in {0,1,random}; corpus '
              'seeds first. evaluations = operations executed; a step is non-trivial when it is a request; distinct = distinct '
              '(operation, outcome, cache state, previous outcome, cwd moved, file changed since last request) signatures'),
@@ -41,18 +48,21 @@ META = {
                      'hand-written models coq/Model/Process.v, coq/Model/Memo.v tied to geophires_x_client.GeophiresXClient, '
                      'GEOPHIRESv3.main, geophires_x/__main__.py and functools.lru_cache by executed histories compared in the kernel',
                      'tools/props/C08.py, tools/lib/c08_sessions.py, tools/lib/c08_worker.py, tools/gen/c08_memo.py (unverified Python)'],
-    'modelled': ['GeophiresXClient.get_geophires_result', 'GeophiresInputParameters.__hash__ / get_output_file_path',
+    'modelled': ['GeophiresXClient.get_geophires_result', 'HipRaXClient / HipRaClient .get_hip_ra_result', 'hip_ra_x.main / HIP_RA.main (chdir)',
+                 'MC_GeoPHIRES3.work_package as (write; new client; request; delete) per iteration', 'path resolution against a working directory', 'GeophiresInputParameters.__hash__ / get_output_file_path',
                  'GEOPHIRESv3.main (chdir, argv[1])', 'geophires_x/__main__.py stash/restore', 'functools.lru_cache (LRU, maxsize)',
                  'the file system as a map path -> content', 'the simulation as an oracle content -> result | raises'],
     'assumptions': ['the simulation is a function of the content of its input file (sampled by the histories, not proved)',
                     'not exercised: the class-level HDF5 table cache of AGSWellBores.data (CLGS inputs need data files that are not available offline)',
-                    'request paths are absolute and normalised; hash(path) collision-free on the paths of a history',
+                    'request paths are normalised; hash(path) collision-free on the paths of a history; command-line runs use absolute paths',
                     'objects held as lru_cache keys stay alive, so identities of live Reservoir/Model objects are distinct',
                     'in-process CLI runs are executed with logging.config.fileConfig stubbed (it would write a log file into the source tree)'],
     'fingerprint': [('src/geophires_x_client/__init__.py', 'GeophiresXClient.get_geophires_result'),
                     ('src/geophires_x_client/geophires_input_parameters.py', 'GeophiresInputParameters.__init__'),
                     ('src/geophires_x_client/geophires_input_parameters.py', 'GeophiresInputParameters.__hash__'),
-                    ('src/geophires_x/GEOPHIRESv3.py', 'main')],
+                    ('src/geophires_x/GEOPHIRESv3.py', 'main'),
+                    ('src/hip_ra_x/__init__.py', 'HipRaXClient.get_hip_ra_result'), ('src/hip_ra/__init__.py', 'HipRaClient.get_hip_ra_result'),
+                    ('src/geophires_monte_carlo/MC_GeoPHIRES3.py', 'work_package')],
 }
 GENERATORS = (c08_memo.gen_memo_table, c08_state.gen_state_table)
 
@@ -321,7 +331,7 @@ def correspondence(ctx, proofs_ok=True):
     rnd = ctx.rng
     seeds = ['0', '1'] + [str(rnd.randrange(2, 2 ** 32)) for _ in range(ctx.n(2, 6))]
     boost = ctx.quick and getattr(ctx, 'boost', False)   # modelled source changed: twice the quick volume (x4 would exceed the quick budget)
-    n = 96 if boost else (48 if ctx.quick else 800)
+    n = 96 if boost else (48 if ctx.quick else 600)
     lo, hi = (12, 40) if ctx.quick else (20, 60)   # not through ctx.n: it scales numbers
     sessions += [S.gen_session(rnd, ok_ids, bad_ids, rnd.randint(lo, hi), seeds, mixes, **extra) for _ in range(n)]
     batch = 240
